@@ -68,7 +68,7 @@ func parseHarness(path string) (*HarnessFile, error) {
 	if err != nil {
 		return nil, err
 	}
-	h := &HarnessFile{Path: path, Src: src, Quick: 300 * time.Second, Thor: 3 * time.Hour, Replace: map[string]string{}, Shards: map[string]int{}}
+	h := &HarnessFile{Path: path, Src: src, Quick: 900 * time.Second, Thor: 3 * time.Hour, Replace: map[string]string{}, Shards: map[string]int{}}
 	sc := bufio.NewScanner(strings.NewReader(string(src)))
 	sc.Buffer(make([]byte, 1<<20), 1<<20)
 	for sc.Scan() {
@@ -356,7 +356,7 @@ func (g *group) deadlineFor(fn string, tier string) time.Duration {
 			return f.Quick
 		}
 	}
-	return 300 * time.Second
+	return 900 * time.Second
 }
 
 // nativeRun executes the cases of one package natively: go test with the same overlay.
